@@ -65,6 +65,10 @@ def sigTable : List (String × List OTy × OTy) :=
     ("round", [prim float], (prim float)),
     ("floor", [prim float], (prim float)),
     ("ceiling", [prim float], (prim float)),
+    -- numeric promotion (Part 2 §5.1.1.1): an integer operand is promoted; the result is still the fractional type
+    ("round", [prim int], (prim float)),
+    ("floor", [prim int], (prim float)),
+    ("ceiling", [prim int], (prim float)),
     ("geo.distance", [prim geo, prim geo], (prim float)),
     ("geo.length", [prim geo], (prim float)),
     ("geo.intersects", [prim geo, prim geo], (prim bool)) ]
